@@ -7,6 +7,7 @@
   irrelevant to every property: the theorems quantify over all choices.)
 -/
 import FlacModel.Model.Decode
+import FlacModel.Gen.ShapesEnc
 
 namespace Flac
 open Gen
